@@ -131,7 +131,8 @@ def names_of_module(tree) -> dict:
                 for t in (st.targets if isinstance(st, ast.Assign) else [st.target] if isinstance(st, ast.AnnAssign) else []):
                     names |= {n.id for n in ast.walk(t) if isinstance(n, ast.Name)}
             cconsts[node.name] = sorted(names)
-    return {'consts': sorted(consts), 'funcs': funcs, 'kws': kws, 'class_consts': cconsts}
+    attrs = sorted({n.attr for n in ast.walk(tree) if isinstance(n, ast.Attribute)})
+    return {'consts': sorted(consts), 'funcs': funcs, 'kws': kws, 'class_consts': cconsts, 'attrs': attrs}
 
 
 def keyword_uses(func) -> set:
@@ -644,6 +645,7 @@ class Normaliser:
                 self._function(path, q, f, cls)
         self._imported_constants(everywhere=bool(self.helpers))
         self._drop_unused()
+        self._split_dict_fields()
         for path in sorted(self.modules):
             tree = self.modules[path].tree
             basekw = self.base.get(path, {}).get('kws', {})
@@ -1219,6 +1221,87 @@ class Normaliser:
         self.log.append(f'N2 {fctx["path"]}::{fctx["qual"]}: call to new helper {helper.qual} inlined ({len(flat)} statement(s))')
         ret = ast.copy_location(ast.Name(id=retname, ctx=ast.Load()), call) if retname else None
         return temps + flat, ret
+
+    def _split_dict_fields(self):
+        """N8: a new attribute that only ever holds a dict with a fixed set of string keys and is only ever used through
+        `obj.F['key']` is the same state as one attribute per key (`obj.F__key`): the dict is taken apart again so that the
+        field-level rules see each slot"""
+        if not any('attrs' in m for m in self.base.values()):
+            return
+        known = set()
+        for m in self.base.values():
+            known |= set(m.get('attrs', ()))
+        occ = {}
+        for path in sorted(self.modules):
+            tree = self.modules[path].tree
+            parent = {}
+            for n in ast.walk(tree):
+                for c in ast.iter_child_nodes(n):
+                    parent[id(c)] = n
+            for n in ast.walk(tree):
+                if isinstance(n, ast.Attribute) and n.attr not in known:
+                    occ.setdefault(n.attr, []).append((path, n, parent))
+            for n in ast.walk(tree):          # string-addressed access keeps the attribute whole
+                if isinstance(n, ast.Constant) and isinstance(n.value, str) and n.value in occ:
+                    occ[n.value].append((path, None, None))
+
+        def init_items(v):
+            if isinstance(v, ast.Dict) and v.keys and all(isinstance(k, ast.Constant) and isinstance(k.value, str) for k in v.keys):
+                return [(k.value, x) for k, x in zip(v.keys, v.values)]
+            if isinstance(v, ast.Call) and isinstance(v.func, ast.Attribute) and v.func.attr == 'fromkeys' and isinstance(v.func.value, ast.Name) and v.func.value.id == 'dict' \
+                    and not v.keywords and len(v.args) in (1, 2) and isinstance(v.args[0], (ast.Tuple, ast.List)) \
+                    and all(isinstance(e, ast.Constant) and isinstance(e.value, str) for e in v.args[0].elts) \
+                    and (len(v.args) == 1 or isinstance(v.args[1], ast.Constant)):
+                fill = v.args[1] if len(v.args) == 2 else ast.Constant(value=None)
+                return [(e.value, fill) for e in v.args[0].elts]
+            if isinstance(v, ast.DictComp) and len(v.generators) == 1 and not v.generators[0].ifs and isinstance(v.generators[0].target, ast.Name) \
+                    and isinstance(v.key, ast.Name) and v.key.id == v.generators[0].target.id and isinstance(v.value, ast.Constant) \
+                    and isinstance(v.generators[0].iter, (ast.Tuple, ast.List)) and all(isinstance(e, ast.Constant) and isinstance(e.value, str) for e in v.generators[0].iter.elts):
+                return [(e.value, v.value) for e in v.generators[0].iter.elts]
+            return None
+
+        for F, lst in sorted(occ.items()):
+            uses, inits, ok = [], [], True
+            for path, n, parent in lst:
+                if n is None:
+                    ok = False
+                    break
+                p_ = parent.get(id(n))
+                if isinstance(p_, ast.Subscript) and p_.value is n and isinstance(p_.slice, ast.Constant) and isinstance(p_.slice.value, str) and not isinstance(p_.ctx, ast.Del) \
+                        and isinstance(n.ctx, ast.Load):
+                    uses.append((path, n, p_, parent))
+                elif isinstance(p_, ast.Assign) and len(p_.targets) == 1 and p_.targets[0] is n and init_items(p_.value) is not None and _is_path(n.value):
+                    inits.append((path, n, p_, parent))
+                else:
+                    ok = False
+                    break
+            if not ok or not inits or not uses:
+                continue
+            keysets = {tuple(sorted(k for k, _ in init_items(a.value))) for _, _, a, _ in inits}
+            if len(keysets) != 1 or not all(k.isidentifier() for k in next(iter(keysets))):
+                continue
+            keys = set(next(iter(keysets)))
+            if any(sub.slice.value not in keys for _, _, sub, _ in uses):
+                continue
+            for path, n, sub, parent in uses:
+                new = ast.copy_location(ast.Attribute(value=n.value, attr=f'{F}__{sub.slice.value}', ctx=sub.ctx), sub)
+                holder = parent.get(id(sub))
+                for fld, val in ast.iter_fields(holder):
+                    if val is sub:
+                        setattr(holder, fld, new)
+                    elif isinstance(val, list):
+                        for i, x in enumerate(val):
+                            if x is sub:
+                                val[i] = new
+            for path, n, a, parent in inits:
+                holder = parent.get(id(a))
+                repl = [ast.copy_location(ast.Assign(targets=[ast.Attribute(value=copy.deepcopy(n.value), attr=f'{F}__{k}', ctx=ast.Store())], value=copy.deepcopy(v), lineno=a.lineno), a)
+                        for k, v in init_items(a.value)]
+                for fld, val in ast.iter_fields(holder):
+                    if isinstance(val, list) and any(x is a for x in val):
+                        i = [j for j, x in enumerate(val) if x is a][0]
+                        val[i:i + 1] = repl
+            self.log.append(f'N8 new dictionary attribute {F} with fixed keys {sorted(keys)} taken apart into one attribute per key ({len(uses)} use(s))')
 
     def _fuse_generator(self, loop, fctx):
         """for T in zip(a, G(args), b): BODY   with G a new loop generator   ->   G's loop over its own iterable zipped with a, b,
@@ -2378,7 +2461,7 @@ def apply(modules: dict) -> list:
         cur = names_of_module(mod.tree)
         ref = bm.get(path)
         if ref is None or cur['consts'] != ref['consts'] or cur['funcs'] != ref['funcs'] or cur['kws'] != ref.get('kws') \
-                or cur['class_consts'] != ref.get('class_consts'):
+                or cur['class_consts'] != ref.get('class_consts') or not set(cur['attrs']) <= set(ref.get('attrs', cur['attrs'])):
             dirty = True
             break
     if not dirty:
